@@ -103,6 +103,32 @@ Definition run_c20 (inp : list Z) : list Z :=
         elist (fun p : Z * (Qc * Qc) => fst p :: eQ (fst (snd p)) ++ eQ (snd (snd p)))
               (@hex_shifts QS rings r g s3 rot drop)
     | None => emalformed end
+  | 25 :: n :: m :: rest =>   (* helper.mesh: the two coordinate grids *)
+    match pall (s0 <- pQ ;; s1 <- pQ ;; co <- pQ ;; si <- pQ ;; pret (s0, s1, co, si)) rest with
+    | Some (s0, s1, co, si) =>
+        0 :: earrQ (@mkArr QS n m (fun i j => fst (@mesh_val QS n m s0 s1 co si i j)))
+          ++ earrQ (@mkArr QS n m (fun i j => snd (@mesh_val QS n m s0 s1 co si i j)))
+    | None => emalformed end
+  | 26 :: n :: m :: rest =>   (* spider *)
+    match pall (w <- pQ ;; s2 <- pQ ;; s0 <- pQ ;; s1 <- pQ ;; co <- pQ ;; si <- pQ ;; aa <- pbool ;;
+                pret (w, s2, s0, s1, co, si, aa)) rest with
+    | Some (w, s2, s0, s1, co, si, aa) => 0 :: earrQ (@spider QS qle n m w s2 s0 s1 co si aa)
+    | None => emalformed end
+  | 27 :: rest =>   (* rebin entry, 2-D: complex flag first *)
+    match pall (cx <- pbool ;; a <- parrQ ;; f <- pZ ;; pret (cx, a, f)) rest with
+    | Some (cx, a, f) => eresult earrQ (rebin2_entry cx a f)
+    | None => emalformed end
+  | 28 :: rest =>   (* rebin entry, cube *)
+    match pall (cx <- pbool ;; c <- pcubeQ ;; f <- pZ ;; pret (cx, c, f)) rest with
+    | Some (cx, c, f) => eresult ecubeQ (rebin3_entry cx c f)
+    | None => emalformed end
+  | 29 :: 0 :: s :: [] => 0 :: elist (fun z => [z]) (sanitize_shape (ShScalar s))
+  | 29 :: 1 :: rest =>
+    match pall (plist pZ) rest with
+    | Some l => 0 :: elist (fun z => [z]) (sanitize_shape (ShSeq l))
+    | None => emalformed end
+  | 30 :: t :: [] =>   (* slice_offset on the Ellipsis forms *)
+    eresult e2 (slice_offset_ell (if t =? 0 then EllBare else if t =? 1 then EllAll else EllOther))
   | 24 :: n :: m :: rest =>   (* a history of drawing calls on one array shape: the model has no state *)
     match pall (plist (pdraw n m)) rest with
     | Some l => 0 :: elist earrQ l
